@@ -147,13 +147,14 @@ func onceCase(hseed uint64) {
 	}
 	type plan struct {
 		kind   int // 0 value, 1 error value, 2 f sees its context cancelled, 3 same but returns the error wrapped (as net/http does),
-		// 4 the caller's context is ALREADY cancelled when it calls Do, and it calls before everybody else
+		// 4 the caller's context is ALREADY cancelled when it calls Do, and it calls before everybody else,
+		// 5 f panics (the caller recovers outside Do)
 		cancel bool
 		j1, j2 uint64
 	}
 	plans := make([]plan, n)
 	for g := range plans {
-		plans[g] = plan{kind: []int{0, 0, 1, 2, 2, 3, 4}[r.Intn(7)], cancel: r.Chance(1, 4), j1: r.U64(), j2: r.U64()}
+		plans[g] = plan{kind: []int{0, 0, 1, 2, 2, 3, 4, 5}[r.Intn(8)], cancel: r.Chance(1, 4), j1: r.U64(), j2: r.U64()}
 	}
 	errVal := make([]error, n)
 	for g := range errVal {
@@ -211,10 +212,24 @@ func onceCase(hseed uint64) {
 				jitter(p.j1)
 			}
 			called := false
+			defer func() {
+				// kind 5: the panic of f comes out of Do (after its deferred recover handed the slot back)
+				if rec := recover(); rec != nil {
+					if p.kind != 5 {
+						addFail("once-unexpected-panic", "goroutine %d: Do panicked: %v", g, rec)
+					}
+				} else if p.kind == 5 && called {
+					addFail("once-panic-swallowed", "goroutine %d: its function panicked but Do returned normally", g)
+				}
+			}()
 			first, res, err := auth.VerifOnceDo(o, ctx, func() (interface{}, error) {
 				called = true
 				logf("a%d", g)
 				jitter(p.j1 >> 5)
+				if p.kind == 5 {
+					logf("p%d", g)
+					panic(fmt.Sprintf("fetch %d blew up", g))
+				}
 				switch p.kind {
 				case 0:
 					logf("d%d.%d", g, 100+g)
@@ -236,7 +251,7 @@ func onceCase(hseed uint64) {
 					addFail("once-first-result", "goroutine %d got (true, %v, %v) which is not the result of its own function", g, res, err)
 				}
 			case called:
-				if p.kind < 2 || res != nil || !errors.Is(err, ctx.Err()) {
+				if p.kind < 2 || p.kind == 5 || res != nil || !errors.Is(err, ctx.Err()) {
 					addFail("once-cancel-result", "goroutine %d ran f to a cancellation but got (false, %v, %v)", g, res, err)
 				}
 			case res == nil && err != nil && ctx.Err() != nil && err == ctx.Err():
@@ -262,7 +277,7 @@ func onceCase(hseed uint64) {
 			switch e[0] {
 			case 'a':
 				inF = true
-			case 'c':
+			case 'c', 'p':
 				inF = false
 			case 'd':
 				inF, published = false, true
@@ -280,7 +295,15 @@ func onceCase(hseed uint64) {
 		}
 		return
 	}
-	line := fmt.Sprintf("O %d %s", len(trace), strings.Join(trace, " "))
+	// for the channel LTS of Model/Once.v a panic of f is a hand-over like a cancellation
+	oTrace := make([]string, len(trace))
+	for i, e := range trace {
+		oTrace[i] = e
+		if e[0] == 'p' {
+			oTrace[i] = "c" + e[1:]
+		}
+	}
+	line := fmt.Sprintf("O %d %s", len(oTrace), strings.Join(oTrace, " "))
 	run.Case(id, line, "ACCEPT")
 	run.TracesAgainstImpl++
 	run.Count(fmt.Sprintf("once/n=%d", n))
@@ -323,7 +346,7 @@ func onceCase(hseed uint64) {
 				addFail("once-two-in-flight", "goroutine %d entered f while %d was inside: %v", g, running, trace)
 			}
 			running = g
-		case 'd', 'c':
+		case 'd', 'c', 'p':
 			running = -1
 		case 'r':
 			fmt.Sscanf(e[1:], "%d.%d", &g, &v)
